@@ -734,3 +734,28 @@ def class_level_mutables(ctx, rule, modules):
                            f"{cls.name}.{a} is a mutable class attribute that methods mutate through self.{a} and __init__ does not re-bind: all "
                            "instances share one object, what one instance registers is seen by every other", f"{mod.relpath}:{st.lineno}")
     return n
+
+
+def ref_gens(ctx, rule):
+    """pd2ppc._ppc2ppci: the reference machines are the in-service ext_grids AND the in-service slack generators; the slack generators are
+    looked up by index label (the gen lookup is label-indexed)."""
+    import ast
+    from ppsa.astutil import norm, names_in
+    ctx.rule(rule, "_ppc2ppci: slack generators are appended to ref_gens whenever there are any (independent of ext_grids: pfsoln writes the slack "
+                   "power only to reference machines), and they are addressed by their index labels in the label-indexed gen lookup")
+    fi = ctx.repo.func("pandapower.pd2ppc:_ppc2ppci")
+    blk = next((n for n in ast.walk(fi.node) if isinstance(n, ast.If) and "slack" in norm(n.test, 120) and any("ref_gens" in norm(st, 200) for st in n.body)), None)
+    if blk is None:
+        ctx.fail("_ppc2ppci: slack generator block not found")
+    t = norm(blk.test, 160).replace(" ", "")
+    ok = "ref_gens" not in names_in(blk.test) and "ext_grid" not in t
+    ctx.ob(rule, "pandapower.pd2ppc::_ppc2ppci::slack-gens-always", ok,
+           f"slack generators become reference machines when `{t[:90]}`" if ok else
+           f"`{t[:110]}` makes the slack generators reference machines only without ext_grids: with an ext_grid elsewhere their slack power is never written back",
+           fi.loc(blk))
+    sg = next((st for st in blk.body if isinstance(st, ast.Assign) and norm(st.targets[0], 20) == "slack_gens"), None)
+    v = norm(sg.value, 200).replace(" ", "") if sg is not None else ""
+    ok = sg is not None and "net.gen.index" in v and "flatnonzero" not in v and "arange" not in v
+    ctx.ob(rule, "pandapower.pd2ppc::_ppc2ppci::slack-gens-by-label", ok,
+           f"slack_gens = {v[:100]}" if ok else f"`slack_gens = {v[:100]}` are row positions, but net._pd2ppc_lookups['gen'] is indexed by label: for a "
+           "gen table with other labels the wrong generator (or -1) becomes the reference machine", fi.loc(sg) if sg is not None else fi.loc())
